@@ -269,6 +269,23 @@ pub fn run(rep: &mut Report) {
     let mut rng = rep.cfg.rng("c19");
     let n = rep.cfg.budget(120_000, 1_800_000);
     let fresh = FsTzdbProvider::default();
+    // zones of the database with their transitions (exported tables), for hostile instants only - the oracle is the core
+    let real_zones: Vec<crate::zones::Zone> = crate::zones::load_real("/verif/.build/zones.tbl").into_iter().filter(|z| !z.trans.is_empty() && z.trans.len() < 400).collect();
+    let midnight_gaps: Vec<(usize, i64)> = {
+        let mut v = Vec::new();
+        for (zi, z) in real_zones.iter().enumerate() {
+            let mut before = z.initial;
+            for (t, after) in &z.trans {
+                let (lb, la) = (t + before, t + after);
+                if after > &before && la.div_euclid(86_400) > lb.div_euclid(86_400) && lb.rem_euclid(86_400) != 0 && t.abs() < 4_000_000_000 {
+                    v.push((zi, *t));
+                }
+                before = *after;
+            }
+        }
+        v
+    };
+    rep.add("compiled/transitions-that-skip-a-midnight-from-before-it", midnight_gaps.len() as u64);
     let mut evals = 0u64;
     for _ in 0..n {
         let scenario = rng.below(10);
@@ -661,8 +678,23 @@ pub fn run(rep: &mut Report) {
             }
             // ------------------------------------------------------------ compiled-data layer: ZonedDateTime
             8 => {
-                let tzid = *r.pick(&TZS);
-                let t = match r.below(4) {
+                let mut tzid = *r.pick(&TZS);
+                let t = match r.below(6) {
+                    // within a day and a half of a transition of any zone of the database (days whose midnight is skipped or
+                    // repeated, short and long days): the wrappers must forward to exactly their own core method there too
+                    5 if !midnight_gaps.is_empty() => {
+                        // a day whose midnight is skipped by a gap that starts before midnight: its first instant is the end
+                        // of the gap, not "00:00 resolved compatibly"
+                        let (zi, tt) = *r.pick(&midnight_gaps);
+                        tzid = real_zones[zi].name.as_str();
+                        cx.rep.hit("compiled/day-with-skipped-midnight");
+                        tt as i128 * 1_000_000_000 + r.range128(-3_600, 80_000) * 1_000_000_000
+                    }
+                    4 | 5 if !real_zones.is_empty() => {
+                        let z = r.pick(&real_zones);
+                        tzid = z.name.as_str();
+                        z.trans[r.below(z.trans.len() as u64) as usize].0 as i128 * 1_000_000_000 + if r.bool() { r.range128(-129_600, 129_600) * 1_000_000_000 } else { *r.pick(&[-1i128, 0, 1, 1_000_000_000, -1_000_000_000]) }
+                    }
                     0 => r.range128(-MAX_INSTANT, MAX_INSTANT),
                     1 => *r.pick(&[1_615_705_200i128, 1_636_264_800, 1_325_239_200, 1_301_752_800, 1_317_482_000]) * 1_000_000_000 + r.range128(-7_200_000_000_000, 7_200_000_000_000),
                     _ => r.range128(-2_000_000_000_000_000_000, 4_000_000_000_000_000_000),
